@@ -31,6 +31,18 @@ HOOKS = ["create_netlist", "create_library", "create_definition", "create_port",
          "dictionary_pop"]
 
 
+def still_registered(listener):
+    """names of the global callback lists that still hold a method of this listener"""
+    from spydrnet.global_state import global_callback
+
+    out = []
+    for k, v in vars(global_callback).items():
+        if k.startswith("_container_") and isinstance(v, (list, set)):
+            if any(getattr(f, "__self__", None) is listener for f in v):
+                out.append(k[len("_container_"):])
+    return sorted(out)
+
+
 def make_partial_listener(selectors):
     """a passive listener that overrides only a drawn subset of the hooks (counts its calls)"""
     from spydrnet.callback.callback_listener import CallbackListener
@@ -450,8 +462,17 @@ class C19(Prop):
                         break
                     p3_gone = True
                     p3_calls = p3.calls
+                    left = still_registered(p3)
+                    if left:
+                        res.violate("C19:removed-listener-still-registered", "overrides %r; still in %r" % (
+                            p3_names, left))
+                        break
                 if r2 is not None and case.get("l2_off") == i:
                     r2.deregister_all_listeners()
+                    if still_registered(r2):
+                        res.violate("C19:removed-listener-still-registered", "full listener; still in %r" % (
+                            still_registered(r2),))
+                        break
                     recs[:] = [x for x in recs if x[1] is not r2]
                     r2 = None
                     res.label("listener-removed-mid-history")
